@@ -1,13 +1,24 @@
 package g_auth
 
 import (
+	"context"
+	"database/sql"
+	"encoding/json"
 	"errors"
 	"fmt"
+	"io"
+	"io/fs"
+	"net"
 	"net/http"
+	"net/url"
+	"os"
 	"reflect"
+	"sort"
 	"strconv"
 	"strings"
+	"syscall"
 	"testing"
+	"time"
 
 	"github.com/Query-farm/vgi-rpc-go/vgirpc"
 	"pgregory.net/rapid"
@@ -24,7 +35,8 @@ import (
 // walk of the statement are implemented here on the *descriptions*.
 
 type c23Node struct {
-	Kind   string    `json:"k"` // leaves: unavailable | failure | rpc | plain;  wrappers: w | custom | opaque | multi | join
+	Kind   string    `json:"k"`              // leaves: unavailable | failure | rpc | plain | foreign;  wrappers: w | custom | urlerr | operr | patherr | syscallerr | opaque | multi | join
+	Name   string    `json:"name,omitempty"` // foreign: key of c23Foreign
 	Retry  int       `json:"retry,omitempty"`
 	Reason string    `json:"reason,omitempty"`
 	Detail string    `json:"detail,omitempty"`
@@ -54,8 +66,127 @@ type c23CustomWrap struct {
 func (c *c23CustomWrap) Error() string { return c.msg + ": " + c.inner.Error() }
 func (c *c23CustomWrap) Unwrap() error { return c.inner }
 
+// c23IsEverything is an error of the caller's own whose Is method claims
+// equality with whatever it is compared to (the shape of syscall.Errno's or a
+// net timeout's Is, taken to its limit). It is not an AuthUnavailableError, an
+// AuthFailure or an RpcError, so for the statement it is "anything else".
+type c23IsEverything struct{}
+
+func (c23IsEverything) Error() string   { return "is-everything" }
+func (c23IsEverything) Is(error) bool   { return true }
+func (c23IsEverything) Timeout() bool   { return true }
+func (c23IsEverything) Temporary() bool { return true }
+
+// c23Foreign: error values that other libraries hand to an authenticator and
+// that it passes on — the standard library's exported sentinels and typed
+// errors, by family, plus values obtained from the real machinery (a cancelled
+// and an expired context, a cancellation cause, a failed parse). None of them
+// is or contains one of the three error types the statement names.
+var c23Foreign = map[string]func() error{
+	"context.Canceled":         func() error { return context.Canceled },
+	"context.DeadlineExceeded": func() error { return context.DeadlineExceeded },
+	"context.live-cancelled": func() error {
+		ctx, cancel := context.WithCancel(context.Background())
+		cancel()
+		return ctx.Err()
+	},
+	"context.live-expired": func() error {
+		ctx, cancel := context.WithDeadline(context.Background(), time.Unix(1, 0))
+		defer cancel()
+		return ctx.Err()
+	},
+	"context.cause": func() error {
+		ctx, cancel := context.WithCancelCause(context.Background())
+		cancel(fmt.Errorf("refresh leader gave up: %w", context.Canceled))
+		return context.Cause(ctx)
+	},
+	"io.EOF":                     func() error { return io.EOF },
+	"io.ErrUnexpectedEOF":        func() error { return io.ErrUnexpectedEOF },
+	"io.ErrClosedPipe":           func() error { return io.ErrClosedPipe },
+	"io.ErrNoProgress":           func() error { return io.ErrNoProgress },
+	"io.ErrShortWrite":           func() error { return io.ErrShortWrite },
+	"os.ErrDeadlineExceeded":     func() error { return os.ErrDeadlineExceeded },
+	"os.ErrNotExist":             func() error { return os.ErrNotExist },
+	"os.ErrPermission":           func() error { return os.ErrPermission },
+	"os.ErrClosed":               func() error { return os.ErrClosed },
+	"os.ErrInvalid":              func() error { return os.ErrInvalid },
+	"os.ErrProcessDone":          func() error { return os.ErrProcessDone },
+	"net.ErrClosed":              func() error { return net.ErrClosed },
+	"net.DNSError":               func() error { return &net.DNSError{Err: "no such host", Name: "idp.example", IsNotFound: true} },
+	"net.DNSError-timeout":       func() error { return &net.DNSError{Err: "i/o timeout", Name: "idp.example", IsTimeout: true} },
+	"net.UnknownNetworkError":    func() error { return net.UnknownNetworkError("quic") },
+	"http.ErrHandlerTimeout":     func() error { return http.ErrHandlerTimeout },
+	"http.ErrAbortHandler":       func() error { return http.ErrAbortHandler },
+	"http.ErrServerClosed":       func() error { return http.ErrServerClosed },
+	"http.ErrBodyReadAfterClose": func() error { return http.ErrBodyReadAfterClose },
+	"http.ErrUseLastResponse":    func() error { return http.ErrUseLastResponse },
+	"http.ErrNoCookie":           func() error { return http.ErrNoCookie },
+	"syscall.ECONNREFUSED":       func() error { return syscall.ECONNREFUSED },
+	"syscall.ECONNRESET":         func() error { return syscall.ECONNRESET },
+	"syscall.EPIPE":              func() error { return syscall.EPIPE },
+	"syscall.ETIMEDOUT":          func() error { return syscall.ETIMEDOUT },
+	"syscall.ENOENT":             func() error { return syscall.ENOENT },
+	"syscall.EACCES":             func() error { return syscall.EACCES },
+	"syscall.EINTR":              func() error { return syscall.EINTR },
+	"sql.ErrNoRows":              func() error { return sql.ErrNoRows },
+	"sql.ErrConnDone":            func() error { return sql.ErrConnDone },
+	"sql.ErrTxDone":              func() error { return sql.ErrTxDone },
+	"errors.ErrUnsupported":      func() error { return errors.ErrUnsupported },
+	"fs.ErrExist":                func() error { return fs.ErrExist },
+	"parse.json":                 func() error { var v any; return json.Unmarshal([]byte("{"), &v) },
+	"parse.strconv":              func() error { _, err := strconv.Atoi("x"); return err },
+	"parse.url":                  func() error { _, err := url.Parse("http://[::1"); return err },
+	"parse.time":                 func() error { _, err := time.Parse(time.RFC3339, "yesterday"); return err },
+	"custom.is-everything":       func() error { return c23IsEverything{} },
+	"custom.is-everything-ptr":   func() error { return &c23IsEverything{} },
+}
+
+// c23ForeignFamilies groups the keys of c23Foreign by their prefix, so that the
+// generator draws a family first and every family is visited equally often.
+var c23ForeignFamilies = func() [][]string {
+	byFam := map[string][]string{}
+	for name := range c23Foreign {
+		fam := name[:strings.IndexByte(name, '.')]
+		byFam[fam] = append(byFam[fam], name)
+	}
+	var fams []string
+	for f := range byFam {
+		fams = append(fams, f)
+	}
+	sort.Strings(fams)
+	var out [][]string
+	for _, f := range fams {
+		sort.Strings(byFam[f])
+		out = append(out, byFam[f])
+	}
+	return out
+}()
+
+// single-Unwrap wrappers: "the Unwrap chain" of the statement runs through them.
+func c23SingleWrap(kind string) bool {
+	switch kind {
+	case "w", "custom", "urlerr", "operr", "patherr", "syscallerr":
+		return true
+	}
+	return false
+}
+
 func (n c23Node) build() error {
 	switch n.Kind {
+	case "foreign":
+		mk, ok := c23Foreign[n.Name]
+		if !ok {
+			panic("c23Node.build: unknown foreign error " + n.Name)
+		}
+		return mk()
+	case "urlerr": // what net/http's client returns around a transport or context error
+		return &url.Error{Op: "Get", URL: "https://idp.example/jwks", Err: n.Kids[0].build()}
+	case "operr":
+		return &net.OpError{Op: "dial", Net: "tcp", Err: n.Kids[0].build()}
+	case "patherr":
+		return &fs.PathError{Op: "open", Path: "/etc/worker/keys.json", Err: n.Kids[0].build()}
+	case "syscallerr":
+		return os.NewSyscallError("connect", n.Kids[0].build())
 	case "unavailable":
 		return &vgirpc.AuthUnavailableError{Detail: n.Detail, RetryAfter: n.Retry}
 	case "failure":
@@ -88,7 +219,7 @@ func (n c23Node) retries() []int {
 			r = 5 // documented package default
 		}
 		return []int{r}
-	case "opaque", "failure", "rpc", "plain":
+	case "opaque", "failure", "rpc", "plain", "foreign":
 		return nil
 	}
 	var out []int
@@ -118,7 +249,7 @@ func (n c23Node) containsFailure() bool {
 // Unwrap chain" of the statement can be read either way.
 func (n c23Node) failure() (definite bool, reason string, ambiguous bool) {
 	cur := n
-	for cur.Kind == "w" || cur.Kind == "custom" {
+	for c23SingleWrap(cur.Kind) {
 		cur = cur.Kids[0]
 	}
 	if cur.Kind == "failure" {
@@ -143,6 +274,22 @@ func (n c23Node) containsValueError() bool {
 		}
 	}
 	return false
+}
+
+// foreignNames lists the foreign leaves reachable by unwrapping (an opaque %v
+// node severs the tree).
+func (n c23Node) foreignNames() []string {
+	switch n.Kind {
+	case "foreign":
+		return []string{n.Name}
+	case "opaque":
+		return nil
+	}
+	var out []string
+	for _, k := range n.Kids {
+		out = append(out, k.foreignNames()...)
+	}
+	return out
 }
 
 func (n c23Node) depth() int {
@@ -267,8 +414,15 @@ func c23CountLeaves(auths []c23Auth) int {
 
 var c23RpcTypes = []string{"ValueError", "ValueError", "ValueError", "PermissionError", "PermissionError", "TypeError", "RuntimeError", "KeyError", "valueerror", "AuthError"}
 
+func genC23Foreign(t *rapid.T) c23Node {
+	fam := c23ForeignFamilies[rapid.IntRange(0, len(c23ForeignFamilies)-1).Draw(t, "family")]
+	return c23Node{Kind: "foreign", Name: fam[rapid.IntRange(0, len(fam)-1).Draw(t, "member")]}
+}
+
 func genC23Leaf(t *rapid.T) c23Node {
-	switch rapid.IntRange(0, 9).Draw(t, "leaf") {
+	switch rapid.IntRange(0, 12).Draw(t, "leaf") {
+	case 10, 11, 12:
+		return genC23Foreign(t)
 	case 0, 1:
 		return c23Node{Kind: "unavailable", Retry: []int{0, 0, 1, 17, 120, 86400}[rapid.IntRange(0, 5).Draw(t, "retry")], Detail: []string{"", "idp timeout"}[rapid.IntRange(0, 1).Draw(t, "udetail")]}
 	case 2, 3, 4:
@@ -286,10 +440,13 @@ func genC23Err(t *rapid.T) *c23Node {
 	depth := rapid.IntRange(0, 4).Draw(t, "wraps")
 	for i := 0; i < depth; i++ {
 		switch k := rapid.IntRange(0, 19).Draw(t, "wrap"); {
-		case k < 8:
+		case k < 7:
 			n = c23Node{Kind: "w", Kids: []c23Node{n}}
-		case k < 12:
+		case k < 10:
 			n = c23Node{Kind: "custom", Kids: []c23Node{n}}
+		case k < 12:
+			// the standard library's own wrapper types
+			n = c23Node{Kind: []string{"urlerr", "operr", "patherr", "syscallerr"}[rapid.IntRange(0, 3).Draw(t, "stdwrap")], Kids: []c23Node{n}}
 		case k < 14:
 			n = c23Node{Kind: "opaque", Kids: []c23Node{n}}
 		default:
@@ -421,6 +578,23 @@ func runC23(c c23Case) (out lib.Outcome) {
 		if res.err.depth() > 0 {
 			out.Label("decisive-error-wrapped")
 		}
+		if names := res.err.foreignNames(); len(names) > 0 {
+			// a foreign library's error is (part of) the value that decides the answer
+			out.Label("decisive-foreign:" + exp.label)
+			if exp.label == "500" {
+				if res.err.Kind == "foreign" {
+					out.Label("decisive-foreign-500-bare")
+				} else {
+					out.Label("decisive-foreign-500-wrapped")
+				}
+				for _, nm := range names {
+					out.Label("foreign-500-family:" + nm[:strings.IndexByte(nm, '.')])
+				}
+			}
+		}
+		if c23HasStdWrap(*res.err) {
+			out.Label("decisive-stdlib-wrapper")
+		}
 	}
 	out.Label("expect:" + exp.label)
 
@@ -513,6 +687,19 @@ func runC23(c c23Case) (out lib.Outcome) {
 	return
 }
 
+func c23HasStdWrap(n c23Node) bool {
+	switch n.Kind {
+	case "urlerr", "operr", "patherr", "syscallerr":
+		return true
+	}
+	for _, k := range n.Kids {
+		if c23HasStdWrap(k) {
+			return true
+		}
+	}
+	return false
+}
+
 func equalInts(a, b []int) bool {
 	if len(a) != len(b) {
 		return false
@@ -583,6 +770,8 @@ func c23DescribeErr(n *c23Node) string {
 		return "rpc(" + n.Type + ")"
 	case "plain":
 		return "plain"
+	case "foreign":
+		return "foreign(" + n.Name + ")"
 	}
 	parts := make([]string, len(n.Kids))
 	for i := range n.Kids {
@@ -606,19 +795,29 @@ func c23Describe(as []c23Auth) string {
 	return "(" + strings.Join(parts, " | ") + ")"
 }
 
+func c23ForeignFamilyLabels() []string {
+	var out []string
+	for _, fam := range c23ForeignFamilies {
+		out = append(out, "foreign-500-family:"+fam[0][:strings.IndexByte(fam[0], '.')])
+	}
+	return out
+}
+
 var propC23 = lib.Prop[c23Case]{
 	ID: "C23",
-	Rule: "error trees: leaf in {AuthUnavailableError(retry 0/1/17/120/86400), AuthFailure(each closed-set reason or empty), RpcError(ValueError, PermissionError, TypeError, RuntimeError, KeyError, 'valueerror', custom), plain} wrapped 0-4 times with %w, a custom Unwrap() error type, %v (severs the chain), two-%w fmt.Errorf or errors.Join with a second leaf on either side; " +
+	Rule: "error trees: leaf in {AuthUnavailableError(retry 0/1/17/120/86400), AuthFailure(each closed-set reason or empty), RpcError(ValueError, PermissionError, TypeError, RuntimeError, KeyError, 'valueerror', custom), plain, foreign = an error of another library (the standard library's exported sentinels and typed errors by family: context incl. the Err()/Cause of a really cancelled/expired context, io, os, fs, net, net/http, syscall, database/sql, errors, parse failures of json/strconv/url/time; and a caller-defined error whose Is method matches every target)} wrapped 0-4 times with %w, a custom Unwrap() error type, the standard library's wrapper types (url.Error, net.OpError, fs.PathError, os.SyscallError), %v (severs the chain), two-%w fmt.Errorf or errors.Join with a second leaf on either side; " +
 		"chains of 1-5 authenticators (each success, the ordinary direct ValueError, or such a tree; 1/6 a nested ChainAuthenticate of 1-3), or a single authenticator installed directly; with/without OAuth metadata; on the unary, __describe__, /init and /exchange routes. " +
 		"Oracle: the statement's table on the tree description (503+Retry-After of an unavailable leaf or 5; else 401 for an AuthFailure on the single-Unwrap chain or a direct ValueError/PermissionError, reason in the closed set and equal to the AuthFailure's own, no-store, configured WWW-Authenticate; else 500; an AuthFailure only behind a multi-error node may be 401 or 500) and the statement's chain walk for the recorded call trace and returned identity. Non-trivial: wrapping depth >= 1 or >= 3 authenticators.",
-	Gen:          genC23,
-	Run:          runC23,
-	Essential:    []string{"expect:503", "expect:401-failure", "expect:401-rpc", "expect:500", "expect:401-chain-exhausted", "expect:accepted", "expect:ambiguous-multi-failure", "chain-stops-early", "decisive-error-wrapped"},
-	EssentialMin: 500,
+	Gen: genC23,
+	Run: runC23,
+	Essential: append([]string{"expect:503", "expect:401-failure", "expect:401-rpc", "expect:500", "expect:401-chain-exhausted", "expect:accepted", "expect:ambiguous-multi-failure", "chain-stops-early", "decisive-error-wrapped",
+		"decisive-foreign:500", "decisive-foreign:503", "decisive-foreign-500-bare", "decisive-foreign-500-wrapped", "decisive-stdlib-wrapper"}, c23ForeignFamilyLabels()...),
+	EssentialMin: 2000,
 	Assumptions: []string{
 		"AuthFailure reasons are drawn from the closed set (or empty), as the typed constants make callers do",
 		"RetryAfter is never negative; 0 means the documented default of 5 seconds",
 		"an AuthFailure reachable only through a multi-error node (two %w, errors.Join) may map to 401 or 500",
+		"an error of a foreign library (standard-library sentinel or typed error, or a caller-defined error with a permissive Is method) that contains none of the three named types is 'anything else'; the request's own context is live throughout",
 	},
 }
 
